@@ -35,6 +35,9 @@ def text_axioms(eng, s):
     facts = [n >= 0, ls(s, 0) == 0, ls(s, n) == strlen(s),
              QAll([i], z3.Implies(z3.And(0 <= i, i < n), z3.And(strlen(line_of(s, i)) >= 1, ls(s, i + 1) == ls(s, i) + strlen(line_of(s, i)))))]
     from pyvc.values import substr
+    from pyvc import values as _vals
+    if _vals.BOUND is not None:      # bounded refutation mode: texts have few lines, so that index quantifiers expand exactly
+        facts.append(n <= _vals.BOUND)
     facts.append(QAll([i], z3.Implies(z3.And(0 <= i, i < n), line_of(s, i) == substr(s, ls(s, i), ls(s, i + 1)))))
     for k, f in enumerate(facts):
         eng.axioms_once(("text", str(s), k), f)
